@@ -47,7 +47,7 @@ pub fn run_job(job: &Value) -> Value {
     let wants: Vec<&str> = job.get("want").and_then(|x| x.as_array()).map(|a| a.iter().filter_map(|x| x.as_str()).collect()).unwrap_or_default();
     let has = |w: &str| wants.contains(&w);
     let want = Want { per_file: has("gen"), groups: has("groups"), wx: has("wx"), runtime: has("runtime"), stringify: has("stringify") };
-    let run = tmpl::compile_with_extra(&files, &scripts, want, 0, job.get("extra").and_then(|x| x.as_str()));
+    let run = tmpl::compile_with_extras(&files, &scripts, want, 0, job.get("extra").and_then(|x| x.as_str()), job.get("import_extra").and_then(|x| x.as_str()));
     let mut r = tmpl::run_to_json(&run);
     r["id"] = job.get("id").cloned().unwrap_or(Value::Null);
     if has("deps") {
